@@ -461,18 +461,31 @@ t=sub(t,'pub fn get_mut(&mut self, key: &u32) -> Option<&mut V> {','''#[verifier
         ensures
             match r {
                 Some(v) => old(self)@.contains_key(*key) && *v == old(self)@[*key]
-                    && final(self)@ == old(self)@.insert(*key, *final(v)) && final(self).wf(),
-                None => !old(self)@.contains_key(*key) && final(self)@ == old(self)@ && final(self).wf(),
+                    && final(self)@ =~= old(self)@.insert(*key, *final(v)) && final(self).wf(),
+                None => !old(self)@.contains_key(*key) && final(self)@ =~= old(self)@ && final(self).wf(),
             }
     {''')
+t=sub(t,'        let mut current = &mut self.root;','''        let ghost root0 = self.root; let ghost len0 = self.len; let ghost k = *key; let ghost fself = *final(self);
+        let mut current = &mut self.root;''')
 t=sub(t,'        loop {','''        loop
-            invariant mappings@.len() == 0, tb(*current),
+            invariant mappings@.len() == 0, tb(*current), bal(*current), tb(root0), bal(root0), len0 == nsz(root0), k == *key,
+                view(*current).contains_key(k) == view(root0).contains_key(k),
+                view(root0).contains_key(k) ==> view(*current)[k] == view(root0)[k],
+                okfin(*current, *final(current), k) ==> (
+                    fself.len == len0 && okfin(root0, fself.root, k)
+                    && (view(*current).contains_key(k) ==> view(fself.root)[k] == view(*final(current))[k])),
             decreases *current,
         {''')
 out.append(t)
 out.append('}')
 out.append('''
 pub proof fn lemma_keys_lt_len<V: Clone>(t: Tree<V>) ensures true {}
+/// b is a well-formed tree with the same keys/size as a and the same values except possibly at key k
+pub open spec fn okfin<V: Clone>(a: Tree<V>, b: Tree<V>, k: u32) -> bool {
+    tb(b) && bal(b) && nsz(b) == nsz(a) && view(b).dom() =~= view(a).dom()
+    && forall|x: u32| x != k && view(a).contains_key(x) ==> #[trigger] view(b)[x] == view(a)[x]
+}
+
 ''')
 out.append(open('tail.rs').read())
 open('t3.rs','w').write('\n'.join(out))
